@@ -195,6 +195,13 @@ func (w *World) evalMemcheck(tag string) {
 	if w.lostReplies > 0 {
 		return // after a lost reply only a restart can restore equality (DESIGN §4 C05)
 	}
+	if _, idx := w.confInForceIdx(mem); idx < 0 && !w.hostileConfActive {
+		// nothing is in flight, yet the tables (allocated + unallocated, with the pool of each IP) correspond to no
+		// configuration version that was ever published: a reload left them half swapped
+		w.fail(w.prop+".tables-match-no-configuration", "tables-match-no-configuration",
+			"with nothing in flight the in-memory tables hold %d IPs whose ip->(node subnets, gateway, vlan) mapping equals none of the %d configuration versions", len(mem), len(w.confVers))
+		return
+	}
 	for _, e := range mem {
 		if !w.inNewestConf(e.IP) {
 			continue
